@@ -88,6 +88,23 @@ def checkWmcLine (kvs : List (String × String)) (rhs : String) : String := Id.r
   let msm := Bdd.smooth lvl varAt d n
   if msm != sm then return s!"FAIL MODEL smooth: model {printBdd msm} implementation {printBdd sm}"
   if sa != Bdd.wmc SB (weightsOf wa) msm then return "FAIL MODEL smoothed count"
+  -- smoothing over every admissible width k (the first k variables of the order)
+  let smk := ((lookup okv "smk").getD "").splitOn ";"
+  for e in smk do
+    if e.isEmpty then continue
+    match e.splitOn ":" with
+    | [kS, tS, cS] =>
+      let some k := kS.toNat? | return "FAIL PARSE smk width"
+      let some t := parseBdd tS | return "FAIL PARSE smk tree"
+      let some c := cS.toNat? | return "FAIL PARSE smk count"
+      if ttString n t.eval != ttString n d.eval then return s!"FAIL SPEC smoothing over the first {k} variables changed the function"
+      let wantK := order.take k
+      if !(t.paths.all (· == wantK)) then
+        return s!"FAIL SPEC smoothing over the first {k} variables: a path tests {(t.paths.find? (· != wantK)).getD []} instead of {wantK}"
+      let specK := wsum SB wantK (weightsOf wa) d.eval a0
+      if c != specK then return s!"FAIL SPEC count of the diagram smoothed over the first {k} variables is {c}, brute-force weighted sum over those variables {specK}"
+      if Bdd.smooth lvl varAt d k != t then return s!"FAIL MODEL smooth over {k} variables"
+    | _ => return "FAIL PARSE smk entry"
   -- reals (dyadic weights k/8, 1-k/8)
   let some cr := (lookup okv "cr").bind parseRat? | return "FAIL PARSE cr"
   let wrW : Weights Rat := fun v => let k : Rat := mkRat (wr.getD v 0) 8; (1 - k, k)
